@@ -13,6 +13,7 @@ import OFV.Proofs.C10Sz
 import OFV.Proofs.C10SzOp
 import OFV.Proofs.C10Basis
 import OFV.Proofs.C10Two
+import OFV.Proofs.C10Spin
 
 namespace OFV.C10
 open OFV.Model OFV.Model.C10 OFV.Spec OFV.Spec.C10
@@ -212,9 +213,21 @@ theorem iterate_basis_spec_nospin (ref : Det) (level : Nat) :
   · rintro ⟨a, b, c⟩; exact ⟨a, (same_number_iff ref d a).mpr b, c⟩
   · rintro ⟨a, b, c⟩; exact ⟨a, (same_number_iff ref d a).mp b, c⟩
 
+/-- `_iterate_basis_(ref, level, spin_preserving=True)` yields, each exactly once, the
+determinants of the reference's length that vacate as many alpha (even) orbitals of the reference
+as they fill empty alpha orbitals, likewise for beta (odd) orbitals — i.e. the same numbers of
+alpha and beta particles, hence the same S_z — and vacate at most `level` orbitals in total. -/
+theorem iterate_basis_spec_spin (ref : Det) (level : Nat) :
+    (iterateBasis ref level true).Nodup ∧ ∀ d, d ∈ iterateBasis ref level true ↔
+      d.length = ref.length ∧ (vacA ref d).length = (filA ref d).length ∧
+        (vacB ref d).length = (filB ref d).length ∧ (vacA ref d).length + (vacB ref d).length ≤ level :=
+  iterateBasis_spin ref level
+
 /-! ## non-vacuity -/
 
 example : jwNumberIndices 2 3 = [3, 5, 6] := by decide
+example : iterateBasis [true, true, false, false] 2 true = [[true, true, false, false], [true, false, false, true], [false, true, true, false], [false, false, true, true]] := by
+  decide
 example : iterateBasis [true, false, false] 1 false = [[true, false, false], [false, true, false], [false, false, true]] := by
   decide
 example : jwSzIndices (1 / 2) 4 (some 1) upIndex downIndex = .ok [8, 2] := by decide +kernel
